@@ -99,11 +99,11 @@ def x_product(engine, st, args, kwargs, node):
 def open_model(engine, st, args, kwargs, node):
     """open(path[, mode]): raises one of the OSError subclasses the callers handle, or returns a file whose
     read() is the content of the file that path denotes."""
+    from . import path_model as PM
+
     p = args[0]
-    if p.kind == "v":
-        ps = z3.Function("path_str_of", V, S.Str)(p.t)
-    else:
-        ps = engine.as_str(p)
+    st, ps = PM.as_path_str(engine, st, p)
+    st = PM.record_open(st, "open", ps)
     outcome = S.fresh("open_outcome", S.Int)
     for cls, code in (("FileNotFoundError", 1), ("IsADirectoryError", 2), ("PermissionError", 3)):
         st1 = st.assume(outcome == code)
